@@ -37,7 +37,7 @@ for r in rows:
     out.append("| " + " | ".join(str(x).replace("|", "/").replace("\n", " ")[:400] for x in r) + " |")
 missed = sum(1 for r in rows if "MISSED" in r[3])
 out.insert(6, "Totals: %d changes, %d detected at first run, %d missed at first run (%d of those now detected).\n" % (
-    len(rows), len(rows) - missed, missed, sum(1 for r in rows if "MISSED" in r[3] and r[4])) +
+    len(rows), len(rows) - missed, missed, sum(1 for r in rows if "MISSED" in r[3] and (r[4] or r[5].startswith("DETECTED")))) +
     "Last re-validation: %d of %d re-validated changes detected.\n" % (
         sum(1 for r in rows if r[5].startswith("DETECTED")), sum(1 for r in rows if r[5])))
 open(os.path.join(V, "SEEDED.md"), "w").write("\n".join(out) + "\n")
